@@ -235,7 +235,7 @@ PROPS = {
                              thorough=[('scenario', ['-dir', '@ROOT/corpus/C11']), ('hist', ['-n', 20000, '-scans', 12, '-focus', 'dry']), ('hist', ['-n', 160, '-scans', 6, '-focus', 'dry', '-slow']), ('assemble', ['-n', 3000, '-bin', '@BUILD/escalator-verif-bin'])],
                              search=[('hist', ['-n', 1500, '-scans', 12, '-focus', 'dry']), ('hist', ['-n', 32, '-scans', 6, '-focus', 'dry', '-slow']), ('assemble', ['-n', 400, '-bin', '@BUILD/escalator-verif-bin'])]),
                 aspects=['hist:drywrites', 'hist:journal', 'hist:reccount', 'assemble-groups', 'assemble-no-dump', 'bad-case'], monitors=['C11'],
-                theorems=['Esc.P.C11_scan', 'Esc.P.C11_history', 'Esc.P.C11_reading', 'Esc.P.C11_other_groups_dry_mode_irrelevant', 'Esc.P.assemble_dry', 'Esc.P.assemble_dry_other_entries_irrelevant'],
+                theorems=['Esc.P.C11_scan', 'Esc.P.C11_history', 'Esc.P.C11_reading', 'Esc.P.C11_other_groups_dry_mode_irrelevant', 'Esc.P.assemble_dry', 'Esc.P.assemble_dry_other_entries_irrelevant', 'Esc.P.main_wiring'],
                 technique='Lean 4 theorem (journal anatomy: with either dry switch every entry is a read) + differential correspondence and runtime monitor',
                 level_text='C11_scan / C11_history: with the global flag or the group option set, the group scan journal contains no write, for every state/view/environment and every history. '
                            'C11_other_groups_dry_mode_irrelevant (= C12_frame read for dry_mode): what a group does for a given environment is a function of the global flag and its own configuration, state, cloud group and view; no other group\'s dry_mode occurs in it. '
@@ -296,7 +296,7 @@ PROPS = {
                              thorough=[('scenario', ['-dir', '@ROOT/corpus/C12']), ('hist', ['-n', 20000, '-scans', 12, '-focus', 'multi']), ('hist', ['-n', 300, '-scans', 8, '-focus', 'fleet']), ('assemble', ['-n', 3000, '-bin', '@BUILD/escalator-verif-bin'])],
                              search=[('hist', ['-n', 1500, '-scans', 12, '-focus', 'multi']), ('hist', ['-n', 60, '-scans', 8, '-focus', 'fleet']), ('assemble', ['-n', 400, '-bin', '@BUILD/escalator-verif-bin'])]),
                 aspects=['hist:journal', 'hist:reccount', 'hist:outcome', 'assemble-cloud', 'assemble-groups', 'assemble-no-dump', 'bad-case'], monitors=['C12'], py_monitor=c12_twin_monitor,
-                theorems=['Esc.P.C12_targets', 'Esc.P.C12_frame', 'Esc.P.C12_containment', 'Esc.P.C12_fatal_kinds', 'Esc.P.scanGroup_gid', 'Esc.P.assemble_cloud_own', 'Esc.P.assemble_cloud_other_entries_irrelevant'],
+                theorems=['Esc.P.C12_targets', 'Esc.P.C12_frame', 'Esc.P.C12_containment', 'Esc.P.C12_fatal_kinds', 'Esc.P.scanGroup_gid', 'Esc.P.assemble_cloud_own', 'Esc.P.assemble_cloud_other_entries_irrelevant', 'Esc.P.main_wiring'],
                 technique='Lean 4 theorem (targets from the journal anatomy; frame lemma for the per-group loop by induction over the configured groups; containment by case analysis of the loop) + differential correspondence on per-group journals with 2-3 groups + monitor + metamorphic twin run of the implementation (same scan on a second controller whose world differs only inside one group; the other groups\' calls and state must be identical)',
                 level_text='C12_targets: every call of a group scan targets a node listed for that group, an instance of its cached cloud group, or that cloud group; C12_frame: a group\'s record is the scan of its own configuration, state, cloud group and view '
                            'as they stood before the loop, whatever the other groups (other names, other cloud groups) contain or do and wherever it stands in the order — other groups enter only through the index at which the environment is consulted; '
